@@ -119,13 +119,27 @@ def sk_aigp(ctx):
                        K.attr(ctx, 'aigp', 0x80, 26, [1, 0, 11] + K.sym(ctx, 'metric', 8), ext=False)], [K.prefix(ctx, 'n0', 3, False)])
 
 
-SHAPES = {'aspath': sk_aspath, 'aspath-wd': sk_aspath_wd, 'mpunreach': sk_mpunreach, 'as4': sk_as4, 'comm': sk_comm, 'withdraw': sk_withdraw, 'origin': sk_bad_origin, 'aigp': sk_aigp}
+def sk_ident(ctx):
+    """attributes whose VALUES may coincide with the identity of a session (its router-id, its AS numbers, its addresses):
+    AS_PATH of one free 4-octet AS, free NEXT_HOP, ORIGINATOR_ID and one CLUSTER_LIST entry.  Anything a decoder derives
+    from such a coincidence belongs to that session's result only."""
+    return K.body([], [K.a_origin(ctx, ext=False), K.attr(ctx, 'aspath', 0x40, 2, [2, 1] + K.sym(ctx, 'asn', 4), ext=False), K.a_nexthop(ctx, ext=False),
+                       K.a_localpref(ctx, ext=False), K.a_originator(ctx, ext=False), K.a_cluster(ctx, 1, ext=False)], [K.prefix(ctx, 'n0', 3, False)])
+
+
+SHAPES = {'ident': sk_ident, 'aspath': sk_aspath, 'aspath-wd': sk_aspath_wd, 'mpunreach': sk_mpunreach, 'as4': sk_as4, 'comm': sk_comm, 'withdraw': sk_withdraw, 'origin': sk_bad_origin, 'aigp': sk_aigp}
 PAIRS = [('aspath', 'aspath'), ('comm', 'comm'), ('origin', 'origin'), ('aspath', 'comm'), ('withdraw', 'aspath'), ('origin', 'aspath'),
          ('aspath-wd', 'aspath'), ('aspath', 'aspath-wd')]
 SESSION_PAIRS = [('asn4', 'asn4'), ('asn4', 'asn2'), ('asn2', 'asn4'), ('asn2', 'asn2')]
 # every session parameter an attribute decoder reads must be a dimension here (read from the source on every run: SESSION_DEPENDENCE)
 SESSIONS = dict(C2.SESSIONS, aigp=dict(families=('ipv4 unicast', 'ipv6 unicast'), adj_rib_in=True, aigp=True))
 AIGP_SESSION_PAIRS = [('aigp', 'asn4'), ('asn4', 'aigp'), ('aigp', 'aigp')]
+# a session with another IDENTITY (router-id, both AS numbers, both addresses), same capabilities: IBGP so that ORIGINATOR_ID /
+# CLUSTER_LIST are at home on it
+SESSIONS['other-identity'] = dict(families=('ipv4 unicast', 'ipv6 unicast'), adj_rib_in=True, local_as=65010, peer_as=65010, router_id='9.8.7.6',
+                                  local='127.0.0.9', peer='127.0.0.10')
+SESSIONS['ibgp'] = dict(families=('ipv4 unicast', 'ipv6 unicast'), adj_rib_in=True, local_as=65000, peer_as=65000)
+IDENTITY_SESSION_PAIRS = [('ibgp', 'other-identity'), ('other-identity', 'ibgp'), ('asn4', 'other-identity')]
 
 
 def decode(data, neg, force=True):
@@ -293,6 +307,12 @@ def units(tier):
                 us.append(Unit('pair/%s-%s/%s-%s/%s' % (p, p, s1, s2, 'cache' if caching else 'nocache'),
                                lambda ctx, p=p, s1=s1, s2=s2, c=caching: h_pair(ctx, p, p, s1, s2, c),
                                must_cover=('decoded',), hash_const=True, reset=reset_all, weight=8, max_seconds=400))
+    # round-3 seed: a verdict derived from the identity of ONE session (ORIGINATOR_ID equal to its router-id) written on the shared attribute set
+    for (s1, s2) in IDENTITY_SESSION_PAIRS:
+        for caching in (False, True):
+            us.append(Unit('pair/ident-ident/%s-%s/%s' % (s1, s2, 'cache' if caching else 'nocache'),
+                           lambda ctx, s1=s1, s2=s2, c=caching: h_pair(ctx, 'ident', 'ident', s1, s2, c),
+                           must_cover=('decoded',), hash_const=True, reset=reset_all, weight=8, max_seconds=400))
     for (s1, s2) in AIGP_SESSION_PAIRS:
         for caching in (False, True):
             us.append(Unit('pair/aigp-aigp/%s-%s/%s' % (s1, s2, 'cache' if caching else 'nocache'),
